@@ -42,6 +42,7 @@ mod bound {
 
 mod pq;
 mod seq;
+mod seqfut;
 mod sinks;
 use bound::qq;
 
@@ -91,6 +92,7 @@ fn main() {
     let outcomes: Vec<Outcome> = match prop.as_str() {
         "C20" => vec![pq::check_pq(if quick { 9 } else { 11 }), pq::check_ipq(if quick { 8 } else { 9 })],
         "C17" => sinks::check(if quick { 7 } else { 9 }),
+        "C07" => vec![seqfut::check(if quick { 5 } else { 7 })],
         "C12" => qq::check(if quick { 12 } else { 15 }),
         _ => {
             eprintln!("seqx: unknown property {}", prop);
